@@ -42,7 +42,7 @@ func c06InFlight(r *enginesim.Result) bool {
 
 func TestC06(t *testing.T) {
 	c := evid.New("C06")
-	c.Rule = "one case in 25 runs two ledgers of one bucket (a real Commander each; InsertLogs and the idempotency-key lookup of both go through the real ledgerstore.Store over one recording database served by the mini SQL engine) through 3-10 sequential keyed and unkeyed writes with keys used on both ledgers: a success on a key never used on its own ledger has exactly one new entry of its own in its own log. One case in 25 sends the writes as elements of one bulk request (outcomes known by construction, a third of the elements with an idempotency key of their own) through the real router over a real Commander: the persisted log must hold exactly the acknowledged elements, in order. One case in 25 is store-layer: a chained batch of 1-5 generated entries goes through the real ledgerstore.Store.InsertLogs over a recording SQL driver that keeps a transaction's rows apart until its COMMIT succeeds; one run per failing driver step (begin, prepare, each row, flush, statement close, commit): success answered => every row committed, error => none. Otherwise two modes. Sampled (19 of 20 cases): one run of a generated history of up to 3 rounds with crash points, a store fault and the death grace drawn with the plan. Enumerated (1 of 20): per generated history (funding prefix + 1-2 rounds of 1-3 concurrent writes of all kinds, keys and references, one choice list): the fault-free run, then one run per crash position 0..K and one run per failing InsertLogs call (exhaustive per history). evaluations = runs. Oracle per run: each success has exactly one entry with the returned content, persisted before the answer; errors leave nothing; no orphan entry; ids stay dense across the restart. Non-trivial = the crash/fault struck while a request was between chaining and its answer; distinct by operations + gate trace + fault position."
+	c.Rule = "one case in 25 runs two ledgers of one bucket (a real Commander each; InsertLogs and the idempotency-key lookup of both go through the real ledgerstore.Store over one recording database served by the mini SQL engine) through 3-10 sequential keyed and unkeyed writes with keys used on both ledgers: a success on a key never used on its own ledger has exactly one new entry of its own in its own log. One case in 25 sends the writes as elements of one bulk request (outcomes known by construction, a third of the elements with an idempotency key of their own) through the real router over a real Commander: the persisted log must hold exactly the acknowledged elements, in order. One case in 25 is store-layer: a chained batch of 1-5 generated entries goes through the real ledgerstore.Store.InsertLogs over a recording SQL driver that keeps a transaction's rows apart until its COMMIT succeeds; one run per failing driver step (begin, prepare, each row, flush, statement close, commit): success answered => every row committed, error => none. Otherwise two modes. Sampled (19 of 20 cases): one run of a generated history of up to 3 rounds with crash points, a store fault (returning a plain error, a wrapped context.Canceled / DeadlineExceeded / sql.ErrTxDone or an unexpected EOF, drawn) and the death grace drawn with the plan. Enumerated (1 of 20): per generated history (funding prefix + 1-2 rounds of 1-3 concurrent writes of all kinds, keys and references, one choice list): the fault-free run, then one run per crash position 0..K and one run per failing InsertLogs call (exhaustive per history; the error kind rotates over the five from a drawn start). evaluations = runs. Oracle per run: each success has exactly one entry with the returned content, persisted before the answer; errors leave nothing; no orphan entry; ids stay dense across the restart. Non-trivial = the crash/fault struck while a request was between chaining and its answer; distinct by operations + gate trace + fault position."
 	c.Assumptions = []string{engineAssumption, "a crash is modelled as: the generation's goroutines stop at their next scheduling point, un-inserted batches vanish, a new Commander is built over the same store"}
 	cfg := enginesim.DefaultConfig()
 	cfg.MaxRounds = 2
@@ -133,18 +133,22 @@ func TestC06(t *testing.T) {
 				return
 			}
 		}
+		// which error the failing insert returns rotates over the kinds of enginesim.InsertFault, from a drawn start
+		faultKinds := []int{0, 1, 2, 3, 4}
+		kindOff := rapid.IntRange(0, 4).Draw(rt, "faultKindOffset")
 		for j := 0; j < inserts; j++ {
 			// a dying process does not stop atomically: also let requests that are past their
 			// wait for persistence run on for a few steps after the runner has panicked
-			for _, grace := range []int{0, 6} {
+			for gi, grace := range []int{0, 6} {
 				p := *plan
 				p.FaultAt = []int{j}
+				p.FaultKind = faultKinds[(kindOff+j+gi)%len(faultKinds)]
 				p.DeathGrace = grace
 				r := runEngine(t, rt, c, &p)
 				if r == nil {
 					continue
 				}
-				if !judge(r, fmt.Sprintf("fault@%d+grace%d", j, grace)) {
+				if !judge(r, fmt.Sprintf("fault@%d/kind%d+grace%d", j, p.FaultKind, grace)) {
 					return
 				}
 			}
